@@ -88,7 +88,9 @@ def strategies_check(ctx, c, outs):
         for builtin in (False, True):
             for dt in ("float64", "float32"):
                 tol = 1e-12 if dt == "float64" else 5e-6
-                Ad = A.astype(dt)
+                # `int_self`: the quaternions hold integers and are handed over as an int64 array (the other operand is
+                # float-valued): every strategy must still give what the float-typed object gives
+                Ad = A.astype("int64") if (c.get("int_self") and dt == "float64") else A.astype(dt)
                 with backend(builtin):
                     qa = Q(Ad)
                     out = {}
@@ -292,6 +294,17 @@ def generate(ctx):
          "chunks": [1, 20], "nonunit": True, "nonunit_lazy": True}
     ctx.count("strategies/qv/nonunit_lazy", ("stn", 0))
     yield "strategies", c
+    # integer-typed quaternion object, float-valued other operand (lazy buffers must not inherit the integer dtype)
+    unit_ints = [[1, 0, 0, 0], [-1, 0, 0, 0], [0, 1, 0, 0], [0, -1, 0, 0], [0, 0, 1, 0], [0, 0, -1, 0], [0, 0, 0, 1], [0, 0, 0, -1]]
+    for r in range(4 if ctx.tier == "quick" else 40):
+        sa, sb = [((2,), (3,)), ((2, 2), (2,)), ((3,), (2, 2)), ((1,), (4,))][r % 4]
+        op = ["qq", "qv"][r % 2]
+        c = {"op": op, "sa": list(sa), "sb": list(sb), "int_self": True,
+             "A": [[float(x) for x in unit_ints[rng.integers(8)]] for _ in range(int(np.prod(sa)))],
+             "B": [GQ.unit_quat(rng)[0] if op == "qq" else GQ.vec(rng) for _ in range(int(np.prod(sb)))],
+             "chunks": [int(x) for x in rng.choice(CHUNKS, 2, replace=False)]}
+        ctx.count(f"strategies/{op}/int_self", ("sti", r, tuple(c["A"][0])), nontrivial=True)
+        yield "strategies", c
     # non-unit quaternions: eager / element-wise results must not depend on the backend or dtype
     for r in range(4 if ctx.tier == "quick" else 40):
         sa = SHAPES[rng.integers(len(SHAPES))]
